@@ -634,6 +634,9 @@ func runC15(p *Program, r *Report) {
 				return true, ""
 			})
 	}
+	c02flush(p, r, "C15.flush")
+	c05leaf(p, r, getLockEnv(p), "C15.leaf")
+	c03ctl(p, r, "C15.len")
 	// activePings accessed only under its mutex (shared with C05.guard)
 	c05guard(p, r, getLockEnv(p), "C15.guard", map[string]bool{"Conn.activePings": true})
 	// ping/pong pass the close-sent guard: reuse the C16 table rows for opcodes 9 and 10
